@@ -62,11 +62,19 @@ def _model_dict(m):
     return out
 
 
-def _z3_worker(smt2, timeout_ms, conn, tactic):
+def _z3_worker(smt2, timeout_ms, conn, tactic, seed=0):
     try:
+        if seed:
+            # portfolio member: same query, different search order (z3 is not run-to-run stable on hard non-linear queries)
+            z3.set_param('smt.random_seed', seed)
+            z3.set_param('sat.random_seed', seed)
+            z3.set_param('nlsat.seed', seed)
+            z3.set_param('smt.arith.random_initial_value', True)
         ctx = z3.Context()
         s = z3.Solver(ctx=ctx) if not tactic else z3.Then(*tactic, ctx=ctx).solver()
         s.set('timeout', timeout_ms)
+        if seed and not tactic:
+            s.set('random_seed', seed)
         s.from_string(smt2)
         t0 = time.time()
         r = s.check()
@@ -107,6 +115,137 @@ def run_cvc5(smt2, timeout_s, extra=()):
         os.unlink(path)
 
 
+def relax_int_to_real(e, cache=None):
+    """Translate a formula over Int/Real into one over Real only, reading every Int constant as a Real one (name suffixed ~r).
+    Integers are reals and + - * < <= = mean the same on them, so a formula valid over the reals is valid over the integers:
+    proving the relaxation proves the original.  Returns None when e uses an operation with no such reading (div, mod, ToInt, UFs)."""
+    cache = {} if cache is None else cache
+
+    def tr(x):
+        k = x.get_id()
+        if k in cache:
+            return cache[k]
+        r = None
+        if z3.is_int_value(x):
+            r = z3.RealVal(x.as_long())
+        elif z3.is_rational_value(x) or z3.is_true(x) or z3.is_false(x):
+            r = x
+        elif z3.is_const(x) and x.decl().kind() == z3.Z3_OP_UNINTERPRETED:
+            if x.sort() == z3.IntSort():
+                r = z3.Real(str(x) + '~r')
+            elif x.sort() in (z3.RealSort(), z3.BoolSort()):
+                r = x
+        elif z3.is_app(x):
+            kd = x.decl().kind()
+            ch = [tr(c) for c in x.children()]
+            if all(c is not None for c in ch):
+                if kd == z3.Z3_OP_TO_REAL:
+                    r = ch[0]
+                elif kd == z3.Z3_OP_ADD:
+                    r = z3.Sum(ch)
+                elif kd == z3.Z3_OP_SUB:
+                    r = ch[0] - ch[1] if len(ch) == 2 else None
+                elif kd == z3.Z3_OP_UMINUS:
+                    r = -ch[0]
+                elif kd == z3.Z3_OP_MUL:
+                    r = z3.Product(ch)
+                elif kd == z3.Z3_OP_DIV and x.sort() == z3.RealSort():
+                    r = ch[0] / ch[1]
+                elif kd == z3.Z3_OP_LE:
+                    r = ch[0] <= ch[1]
+                elif kd == z3.Z3_OP_LT:
+                    r = ch[0] < ch[1]
+                elif kd == z3.Z3_OP_GE:
+                    r = ch[0] >= ch[1]
+                elif kd == z3.Z3_OP_GT:
+                    r = ch[0] > ch[1]
+                elif kd == z3.Z3_OP_EQ:
+                    r = ch[0] == ch[1]
+                elif kd == z3.Z3_OP_DISTINCT and len(ch) == 2:
+                    r = ch[0] != ch[1]
+                elif kd == z3.Z3_OP_ITE:
+                    r = z3.If(ch[0], ch[1], ch[2])
+                elif kd == z3.Z3_OP_AND:
+                    r = z3.And(*ch)
+                elif kd == z3.Z3_OP_OR:
+                    r = z3.Or(*ch)
+                elif kd == z3.Z3_OP_NOT:
+                    r = z3.Not(ch[0])
+                elif kd == z3.Z3_OP_IMPLIES:
+                    r = z3.Implies(ch[0], ch[1])
+        cache[k] = r
+        return r
+    return tr(e)
+
+
+def relaxed(hyps, goal):
+    """(hyps', goal') over the reals, hypotheses without a real reading dropped; None if the goal has none"""
+    cache = {}
+    g = relax_int_to_real(goal, cache)
+    if g is None:
+        return None
+    hs = [h for h in (relax_int_to_real(h, cache) for h in hyps) if h is not None]
+    return hs, g
+
+
+def real_core(ob):
+    """A WEAKER variant of an obligation that lives in pure real arithmetic: every application of an uninterpreted function is replaced by
+    a fresh constant (congruence is forgotten) and every hypothesis that still mentions a non-real, non-boolean symbol is dropped.
+    Forgetting congruence and dropping hypotheses only weakens what is assumed, so `unsat` (valid) carries over to the original obligation;
+    `sat` means nothing.  Returns SMT-LIB text or None when the goal itself is not expressible."""
+    cache = {}
+
+    def ab(e):
+        if not z3.is_app(e):
+            return e
+        k = e.get_id()
+        if k in cache:
+            return cache[k]
+        if e.decl().kind() == z3.Z3_OP_UNINTERPRETED and e.num_args() > 0:
+            r = z3.Const('uf!' + hashlib.sha1(z3.simplify(e).sexpr().encode()).hexdigest()[:12], e.sort())
+        elif e.num_args() == 0:
+            r = e
+        else:
+            args = [ab(c) for c in e.children()]
+            r = e.decl()(*args)
+        cache[k] = r
+        return r
+
+    def pure(e):
+        return all(v.sort().kind() in (z3.Z3_REAL_SORT, z3.Z3_BOOL_SORT) for v in z3.z3util.get_vars(e))
+    try:
+        g = ab(ob.goal)
+        if not pure(g):
+            return None
+        hyps = [h for h in (ab(h) for h in ob.hyps) if pure(h)]
+    except Exception:
+        return None
+    sol = z3.Solver()
+    for h in hyps:
+        sol.add(h)
+    sol.add(z3.Not(g))
+    return sol.to_smt2()
+
+
+def run_z3_text(text, timeout_s, tactic=None):
+    ctxm = mp.get_context('fork')
+    parent, child = ctxm.Pipe(duplex=False)
+    pr = ctxm.Process(target=_z3_worker, args=(text, int(timeout_s * 1000), child, tactic))
+    pr.start()
+    child.close()
+    t0 = time.time()
+    verdict, dt = 'unknown', 0.0
+    if parent.poll(timeout_s * 1.5 + 5):
+        try:
+            verdict, dt, _ = parent.recv()
+        except EOFError:
+            pass
+    if pr.is_alive():
+        pr.kill()
+    pr.join()
+    return verdict, (dt or time.time() - t0)
+
+
 def discharge(obligs, timeout_s=30, jobs=None, quick_ms=400, use_cvc5=True, cvc5_all=False, progress=None,
               tactic=None):
     """returns list[Result] aligned with obligs"""
@@ -142,39 +281,66 @@ def discharge(obligs, timeout_s=30, jobs=None, quick_ms=400, use_cvc5=True, cvc5
             results[i] = Result(ob, 'sat', 'z3', dt, _model_dict(s.model()))
         else:
             pending.append(i)
-    # 2. process per obligation, hard deadline
+    # 2. one process per (obligation, portfolio member), hard deadline.  Member 0 is the default configuration; members 1.. re-seed the
+    #    search.  The first definite verdict wins and stops the obligation's other members.  All default members are queued first, so the
+    #    re-seeded ones only use cores that would otherwise idle while stragglers run.
     running = []
-    queue = list(pending)
+    seeds = (0, 7, 13, 101) if not tactic else (0,)
+    queue = [(i, sd) for sd in seeds for i in pending]
     ctxm = mp.get_context('fork')
     hard = timeout_s * 1.5 + 5
+    decided = set()
+    unknown_notes = {}
+    left = {i: len(seeds) for i in pending}
+    t_first = {}
+
+    def member_done(i, note, dt):
+        left[i] -= 1
+        unknown_notes.setdefault(i, note)
+        if left[i] == 0 and i not in decided:
+            results[i] = Result(obligs[i], 'unknown', 'z3', time.time() - t_first.get(i, time.time()), note=unknown_notes[i] + f' (portfolio of {len(seeds)})')
+            if progress:
+                progress(results[i])
+
     while queue or running:
         while queue and len(running) < jobs:
-            i = queue.pop(0)
+            i, sd = queue.pop(0)
+            if i in decided:
+                continue
             parent, child = ctxm.Pipe(duplex=False)
-            pr = ctxm.Process(target=_z3_worker, args=(texts[i], int(timeout_s * 1000), child, tactic))
+            pr = ctxm.Process(target=_z3_worker, args=(texts[i], int(timeout_s * 1000), child, tactic, sd))
             pr.start()
             child.close()
-            running.append((i, pr, parent, time.time()))
+            t_first.setdefault(i, time.time())
+            running.append((i, pr, parent, time.time(), sd))
         still = []
-        for (i, pr, conn, t0) in running:
+        for (i, pr, conn, t0, sd) in running:
+            if i in decided:
+                pr.kill()
+                pr.join()
+                continue
             if conn.poll(0.005):
                 try:
                     verdict, dt, model = conn.recv()
                 except EOFError:
                     verdict, dt, model = 'unknown', time.time() - t0, {'reason': 'worker died'}
                 pr.join()
-                results[i] = Result(obligs[i], verdict, 'z3', dt, model if verdict == 'sat' else {}, note=model.get('reason', '') if verdict == 'unknown' else '')
-                if progress:
-                    progress(results[i])
+                if verdict in ('sat', 'unsat'):
+                    decided.add(i)
+                    results[i] = Result(obligs[i], verdict, 'z3' if sd == 0 else f'z3(seed={sd})', dt, model if verdict == 'sat' else {})
+                    if progress:
+                        progress(results[i])
+                else:
+                    member_done(i, model.get('reason', ''), dt)
             elif time.time() - t0 > hard:
                 pr.kill()
                 pr.join()
-                results[i] = Result(obligs[i], 'unknown', 'z3', time.time() - t0, note='hard timeout')
+                member_done(i, 'hard timeout', time.time() - t0)
             elif not pr.is_alive() and not conn.poll(0.01):
                 pr.join()
-                results[i] = Result(obligs[i], 'unknown', 'z3', time.time() - t0, note='worker exited')
+                member_done(i, 'worker exited', time.time() - t0)
             else:
-                still.append((i, pr, conn, t0))
+                still.append((i, pr, conn, t0, sd))
         running = still
         if running and not queue:
             time.sleep(0.01)
@@ -184,7 +350,9 @@ def discharge(obligs, timeout_s=30, jobs=None, quick_ms=400, use_cvc5=True, cvc5
         if todo:
             from concurrent.futures import ThreadPoolExecutor
             with ThreadPoolExecutor(max_workers=jobs) as tp:
-                futs = {i: tp.submit(run_cvc5, texts[i], timeout_s) for i in todo}
+                # second opinion on an already decided obligation: short budget (its 'unknown' changes nothing, only a definite
+                # contrary verdict matters); full budget where z3 left the obligation open
+                futs = {i: tp.submit(run_cvc5, texts[i], timeout_s if results[i].verdict == 'unknown' else min(timeout_s, 15)) for i in todo}
                 for i, f in futs.items():
                     v, dt = f.result()
                     r = results[i]
@@ -199,6 +367,19 @@ def discharge(obligs, timeout_s=30, jobs=None, quick_ms=400, use_cvc5=True, cvc5
                         else:
                             r.note = (r.note + f' cvc5={v}').strip()
                             r.cvc5 = v
+    # 4. still unknown: the pure-real core of the obligation (weaker hypotheses, nlsat is complete there)
+    todo = [i for i, r in enumerate(results) if isinstance(r, Result) and r.verdict == 'unknown' and not getattr(r, 'disagree', False)]
+    if todo:
+        cores = {i: real_core(obligs[i]) for i in todo}
+        cores = {i: t for i, t in cores.items() if t}
+        if cores:
+            from concurrent.futures import ThreadPoolExecutor
+            with ThreadPoolExecutor(max_workers=jobs) as tp:
+                futs = {i: tp.submit(run_z3_text, t, timeout_s, ('simplify', 'qfnra-nlsat')) for i, t in cores.items()}
+                for i, f in futs.items():
+                    v, dt = f.result()
+                    if v == 'unsat':
+                        results[i] = Result(obligs[i], 'unsat', 'z3-nlsat(real-core)', dt, note='pure-real weakening; ' + results[i].note)
     for i, r in enumerate(results):
         if isinstance(r, tuple):
             src = results[r[1]]
